@@ -4,7 +4,7 @@ The real function is executed symbolically (path splitting) on shapes whose NUMB
 pattern of previously fused axes are fixed per task and whose SIZES are symbolic positive integers:
 
 The requests are exactly those of the property's quantifier, enumerated as RECIPES over a shape with
-n <= 4 axes of symbolic sizes d0.. >= 1 (a rank-bounded proof, complete for every size assignment):
+n <= 4 axes (5 in the thorough tier) of symbolic sizes d0.. >= 1 (a rank-bounded proof, complete for every size assignment):
 
   forward   drop any subset of axes (those are assumed to have size one) and merge the remaining ones
             into adjacent groups: the target entries are the products of the group sizes;
@@ -34,7 +34,7 @@ import itertools
 import z3
 
 from pyvc.core import SV, TInt
-from pyvc.task import Task, check_call
+from pyvc.task import Task, check_call, thorough
 
 Q = "abelian_core.calc_reshape_args"
 MAX_N = 4
@@ -308,9 +308,9 @@ def _identity_task(n, pattern):
 
 def tasks():
     out = []
-    for n in range(0, MAX_N + 1):
+    for n in range(0, MAX_N + 1 + (1 if thorough() else 0)):
         out += _recipe_tasks(n)
-    for n in range(0, 4):
+    for n in range(0, 4 + (1 if thorough() else 0)):
         out += _expand_tasks(n)
     for n in range(0, 4):
         for pattern in itertools.product((False, True), repeat=n):
